@@ -274,7 +274,8 @@ Definition get_frames_rw (w : nat) (R C M nframes : Z) (bytes : list Z)
            (maps : list (list (string * mapping))) (sel : selector)
            (fs : list Z) (as_index : bool) : res (list (list Q)) :=
   match fs with
-  | [] => Err "ValueError"
+  | [] =>                                   (* transform of frame index 0, then np.stack([]) *)
+    bind (select_mapping (frame_maps maps M 0) sel) (fun _ => Err "ValueError")
   | f0 :: _ =>
     bind (std_index nframes f0 as_index) (fun k0 =>
     bind (select_mapping (frame_maps maps M k0) sel) (fun _ =>
@@ -465,3 +466,136 @@ Definition run_sc (c : sccfg) (ws : list Z) : val :=
         (match e with ECodec => vz_list ws
                     | _ => vz_list (sc_decode e (length ws) (sc_encode e ws)) end)] end)
     (sc_validate c).
+
+(* ======================================================================== *)
+(* extension: more read entry points and options of the image interface      *)
+(* ======================================================================== *)
+(* frame_numbers=None: every frame in stored order, in the requested convention *)
+Definition all_frames (nframes : Z) (as_index : bool) : list Z :=
+  if as_index then zrange nframes else map (fun k => k + 1) (zrange nframes).
+
+(* image.get_stored_frames: loop of get_stored_frame, then np.stack (refuses nothing to stack) *)
+Definition get_stored_frames (w : nat) (R C nframes : Z) (bytes : list Z)
+           (fs : option (list Z)) (as_index : bool) : res (list (list Z)) :=
+  let l := match fs with Some l => l | None => all_frames nframes as_index end in
+  bind (res_all (map (fun f => get_stored_frame w R C nframes bytes f as_index) l)) (fun out =>
+  match out with [] => Err "ValueError" | _ => Ok out end).
+
+(* _CombinedPixelTransform.__init__: which transform the three tri-state flags
+   (apply_real_world_transform, apply_modality_transform, apply_voi_transform; None/True/False)
+   select on a parametric map built by the constructor: monochrome, real world value mappings
+   present, identity rescale (PixelValueTransformationSequence) present, a LINEAR window
+   (FrameVOILUTSequence) present, PresentationLUTShape IDENTITY *)
+Definition tri_use (f : option bool) : bool := match f with None => true | Some b => b end.
+Definition tri_req (f : option bool) : bool := match f with None => false | Some b => b end.
+Inductive tmode := TRealWorld (require_voi : bool) | TStored | TWindow.
+Definition resolve_flags (rw md voi : option bool) : res tmode :=
+  let require_rwvm := tri_req rw in
+  let require_mod := tri_req md in
+  if require_mod && require_rwvm then Err "ValueError"
+  else
+    let use_rwvm := if require_mod then false else tri_use rw in
+    let require_voi := tri_req voi in
+    let use_mod := if require_rwvm then false else tri_use md in
+    let use_voi := if require_rwvm && negb require_voi then false else tri_use voi in
+    if use_voi && negb use_mod then Err "ValueError"
+    else if use_rwvm then Ok (TRealWorld require_voi)
+    else if use_voi then Ok TWindow
+    else Ok TStored.
+
+(* pixels.apply_voi_window, LINEAR, output range (0, 1), not inverted; exact rationals.
+   width 1 divides by zero in the code (not drawn; the model's value there is meaningless) *)
+Definition qclip01 (q : Q) : Q := if Qle_bool q 0 then 0%Q else if Qle_bool 1 q then 1%Q else q.
+Definition voi_linear (center width : Q) (x : Z) : Q :=
+  qclip01 ((inject_Z x - (center - width / 2)) * (1 / (width - 1)))%Q.
+
+(* get_frame with the three flags *)
+Definition frame_transform (maps_k : list (string * mapping)) (sel : selector)
+           (rw md voi : option bool) (center width : Q) : res (list Z -> res (list Q)) :=
+  bind (resolve_flags rw md voi) (fun t =>
+  match t with
+  | TRealWorld require_voi =>
+      bind (select_mapping maps_k sel) (fun m =>
+      if require_voi then Err "RuntimeError"      (* VOI superseded by the real world mapping *)
+      else Ok (apply_mapping m))
+  | TStored => Ok (fun ws => Ok (map inject_Z ws))
+  | TWindow => Ok (fun ws => Ok (map (voi_linear center width) ws))
+  end).
+
+Definition get_frame_flags (w : nat) (R C M nframes : Z) (bytes : list Z)
+           (maps : list (list (string * mapping))) (sel : selector)
+           (rw md voi : option bool) (center width : Q)
+           (f : Z) (as_index : bool) : res (list Q) :=
+  bind (std_index nframes f as_index) (fun k =>
+  bind (frame_transform (frame_maps maps M k) sel rw md voi center width) (fun t =>
+  t (read_frame w R C bytes k))).
+
+Definition get_frames_flags (w : nat) (R C M nframes : Z) (bytes : list Z)
+           (maps : list (list (string * mapping))) (sel : selector)
+           (rw md voi : option bool) (center width : Q)
+           (fs : option (list Z)) (as_index : bool) : res (list (list Q)) :=
+  let l := match fs with Some l => l | None => all_frames nframes as_index end in
+  match l with
+  | [] => bind (frame_transform (frame_maps maps M 0) sel rw md voi center width)
+               (fun _ => Err "ValueError")
+  | f0 :: _ =>
+    bind (std_index nframes f0 as_index) (fun k0 =>
+    bind (frame_transform (frame_maps maps M k0) sel rw md voi center width) (fun _ =>
+    res_all (map (fun f => get_frame_flags w R C M nframes bytes maps sel rw md voi center width
+                             f as_index) l)))
+  end.
+
+(* pm/content.py RealWorldValueMapping.apply(array): a LUT needs an integer array *)
+Definition rwvm_apply (int_array : bool) (m : mapping) (ws : list Z) : res (list Q) :=
+  match m with
+  | MLut _ _ => if negb int_array then Err "ValueError" else apply_mapping m ws
+  | MLin _ _ _ _ => apply_mapping m ws
+  end.
+
+(* Image.get_volume of a single-channel map whose planes differ in the z coordinate only
+   (regular spacing is a precondition: the harness draws nothing else): frames must be
+   identified by their positions; slices in descending z (image normal of the axial sources) *)
+Definition zkey (p : list Z) : Z := nth 2 p 0.
+Fixpoint insert_desc (x : list Z * list Z) (l : list (list Z * list Z)) : list (list Z * list Z) :=
+  match l with
+  | [] => [x]
+  | y :: r => if zkey (fst y) <? zkey (fst x) then x :: l else y :: insert_desc x r
+  end.
+Definition sort_desc (l : list (list Z * list Z)) : list (list Z * list Z) :=
+  fold_right insert_desc [] l.
+Definition pm_volume (pos : list (list Z)) (frames : list (list Z))
+  : res (list (list Z * list Z)) :=
+  if (length (dedup pos) <? length pos)%nat then Err "RuntimeError"
+  else Ok (sort_desc (combine pos frames)).
+
+(* ---- boundary functions (extension) --------------------------------------- *)
+Definition run_pm_read_batch (w : nat) (a : list (list (list (list Z)))) (N R C M : Z)
+           (fs : option (list Z)) (as_index : bool) : val :=
+  vres vz_list2 (get_stored_frames w R C (N * M) (pm_bytes (get_nested a) N R C M w) fs as_index).
+
+Definition run_pm_read_flags (batch : bool) (w : nat) (a : list (list (list (list Z)))) (N R C M : Z)
+           (maps : list (list (string * mapping))) (sel : selector)
+           (rw md voi : option bool) (center width : Q)
+           (fs : option (list Z)) (as_index : bool) : val :=
+  let bytes := pm_bytes (get_nested a) N R C M w in
+  vres (fun l => VL (map vq_list l))
+    (if batch then get_frames_flags w R C M (N * M) bytes maps sel rw md voi center width fs as_index
+     else res_all (map (fun f => get_frame_flags w R C M (N * M) bytes maps sel rw md voi
+                                   center width f as_index)
+                       (match fs with Some l => l | None => [] end))).
+
+Definition run_rwvm_apply (int_array : bool) (m : mapping) (ws : list Z) : val :=
+  vres vq_list (rwvm_apply int_array m ws).
+
+(* stored map read back as a volume: per slice [position; values] *)
+Definition run_pm_volume (w : nat) (a : list (list (list (list Z)))) (N R C : Z)
+           (pos : list (list Z)) (rw : option mapping) : val :=
+  let bytes := pm_bytes (get_nested a) N R C 1 w in
+  let frames := map (read_frame w R C bytes) (zrange N) in
+  vres (fun l => VL l)
+    (bind (pm_volume pos frames) (fun sl =>
+     res_all (map (fun pf =>
+       match rw with
+       | None => Ok (VL [vz_list (fst pf); vz_list (snd pf)])
+       | Some m => bind (apply_mapping m (snd pf)) (fun vs => Ok (VL [vz_list (fst pf); vq_list vs]))
+       end) sl))).
